@@ -188,6 +188,50 @@ def in_true_branch_of(node, pred):
     return None
 
 
+def membership_guard(node, keys, cont):
+    """The statement that guarantees `key in container` whenever node is evaluated: (owner, side) with side = 'body' (node in the body of
+    `if key in container`), 'else' (in the else branch of `if key not in container`), 'after' (behind a guard statement
+    `if key not in container: raise / return / continue`); None when there is none.  The test is judged in canonical form as a
+    conjunction, single-definition names in it read as their definition."""
+    from ..astutil import path_conditions, clone
+    from ..normal import canon_test
+    from ..fn import expand
+    fa = _fa_of(node)
+    for t, pol in path_conditions(node):
+        for cand in (t, expand(t, fa) if fa is not None else None):
+            if cand is None:
+                continue
+            e = canon_test(cand if pol else ast.UnaryOp(op=ast.Not(), operand=clone(cand)))
+            for cj in (e.values if isinstance(e, ast.BoolOp) and isinstance(e.op, ast.And) else [e]):
+                if isinstance(cj, ast.Compare) and len(cj.ops) == 1 and isinstance(cj.ops[0], ast.In) and src(cj.left) in keys \
+                        and src(cj.comparators[0]) == cont:
+                    owner = getattr(t, '_parent', None)
+                    side = 'after'
+                    if isinstance(owner, ast.If):
+                        if any(node is x for b in owner.body for x in ast.walk(b)):
+                            side = 'body'
+                        elif any(node is x for b in owner.orelse for x in ast.walk(b)):
+                            side = 'else'
+                    elif isinstance(owner, ast.IfExp):
+                        side = 'body' if any(node is x for x in ast.walk(owner.body)) else 'else'
+                    return owner, side
+    return None
+
+
+def other_side_raises(owner, side, exc='KeyError'):
+    """The complementary outcome of the guard leaves by `raise <exc>`."""
+    if not isinstance(owner, ast.If):
+        return False
+    blk = owner.orelse if side == 'body' else owner.body
+    if not blk:
+        return False
+    last = blk[-1]
+    if isinstance(last, ast.Raise) and last.exc is not None:
+        e = last.exc.func if isinstance(last.exc, ast.Call) else last.exc
+        return (dotted(e) or '').split('.')[-1] == exc
+    return False
+
+
 def membership(test, key_src, container_src):
     keys = key_src if isinstance(key_src, (set, list, tuple)) else [key_src]
     for c in ast.walk(test):
@@ -350,7 +394,8 @@ def run(ctx):
             if isinstance(getattr(node, '_parent', None), ast.Subscript) and node._parent.value is node and level == 'group':
                 pass
             cont = CACHE if level == 'group' else src(node.value)
-            guard = in_true_branch_of(node, lambda t: membership(t, key_spellings(key), cont))
+            mg = membership_guard(node, key_spellings(key), cont)
+            guard = mg[0] if mg is not None else None
             if 'sdss_flagexist' in roots and g is f_exist:
                 ctx.check('C07.GUARDED', guard is not None, g, node,
                           'sdss_flagexist: `%s` is evaluated only when `%s in %s` holds' % (src(node)[:40], src(key), cont),
@@ -358,7 +403,7 @@ def run(ctx):
                               'being reported' % (cont, src(key), level), construct='unguarded %s' % src(node)[:50])
             else:
                 tr = in_keyerror_try(node)
-                ok = (guard is not None and isinstance(guard, ast.If) and else_raises(guard)) or tr is not None
+                ok = (mg is not None and other_side_raises(mg[0], mg[1])) or tr is not None
                 ctx.check('C07.GUARDED', ok, g, node,
                           '%s: lookup `%s` is membership-guarded with a KeyError exit (or inside try/except KeyError: raise KeyError)'
                           % (g.qualname, src(node)[:40]),
